@@ -82,3 +82,53 @@ theorem fitsAll_consecutive (s : SsrcState) (j n : Nat) (h : Fits s j) (hb : j +
     refine ⟨h, ih (advance s j) (j + 1) (fits_succ s j h (by omega)) (by omega)⟩
 
 end Rtsp.Sec
+
+namespace Rtsp.Sec
+open Rtsp.Mikey (Bytes)
+
+/-- `readRTP` never changes the key material of the receiving context -/
+theorem readRTP_keeps_key {W WC} (ci : Cipher W WC) (r : RecvFmt) (f : Frame W) (c : Ctx) (hc : r.inCtx = some c) :
+    ∃ c', (readRTP ci r f).1.inCtx = some c' ∧ c'.key = c.key ∧ c'.mki = c.mki := by
+  obtain ⟨inCtx, remote⟩ := r
+  simp only at hc
+  subst hc
+  obtain ⟨ssrc, seq, body⟩ := f
+  have dk : ∀ c' p, c.decryptRTP ci ssrc seq = fun w => c.decryptRTP ci ssrc seq w := fun _ _ => rfl
+  have aux : ∀ (x : RecvFmt) (w : W), x.inCtx = some c →
+      ∃ c', (match c.decryptRTP ci ssrc seq w with
+        | none => (x, ReadRes.decodeError)
+        | some (c', p') => ({ x with inCtx := some c' }, .deliver p')).1.inCtx = some c' ∧ c'.key = c.key ∧ c'.mki = c.mki := by
+    intro x w hx
+    cases hd : c.decryptRTP ci ssrc seq w with
+    | none => exact ⟨c, hx, rfl, rfl⟩
+    | some cp =>
+      obtain ⟨c', p'⟩ := cp
+      refine ⟨c', rfl, ?_⟩
+      unfold Ctx.decryptRTP at hd
+      simp only at hd
+      split at hd
+      · cases hd
+      · injection hd with hd
+        injection hd with h1 _
+        subst h1
+        exact ⟨rfl, rfl⟩
+  cases body with
+  | plain b =>
+    cases remote with
+    | none => exact ⟨c, by simp [readRTP], rfl, rfl⟩
+    | some s =>
+      by_cases hs : ssrc ≠ s
+      · exact ⟨c, by simp [readRTP, hs], rfl, rfl⟩
+      · exact ⟨c, by simp [readRTP, hs], rfl, rfl⟩
+  | prot w =>
+    cases remote with
+    | none =>
+      simp only [readRTP]
+      exact aux _ w rfl
+    | some s =>
+      by_cases hs : ssrc ≠ s
+      · exact ⟨c, by simp [readRTP, hs], rfl, rfl⟩
+      · simp only [readRTP, hs, Option.isSome_some, and_false, if_false]
+        exact aux _ w rfl
+
+end Rtsp.Sec
